@@ -800,9 +800,10 @@ Definition dedup_pair_ok (a b : placed) : bool :=
        && (negb (optN_eqb (gp_mat pa) (gp_mat pb)) || (ia =? ib))))
   (* different mesh pointers: different accessors (nothing is shared by accident) *)
   && ((me_ptr (mo_mesh ma) =? me_ptr (mo_mesh mb)) || negb (optN_eqb (gp_idx pa) (gp_idx pb)))
-  (* same material pointer: the same material entry *)
+  (* same material pointer, or two materials equal by value ([mat_equal]: every field, textures by URI and
+     sampler settings): the same material entry; materials that differ in some field: different entries *)
   && match mo_mat ma, mo_mat mb with
-     | Some x, Some y => negb (pm_ptr x =? pm_ptr y) || optN_eqb (gp_mat pa) (gp_mat pb)
+     | Some x, Some y => Bool.eqb ((pm_ptr x =? pm_ptr y) || mat_equal x y) (optN_eqb (gp_mat pa) (gp_mat pb))
      | _, _ => true end.
 Definition all_tex_refs (s : summary) (pl : list placed) : list (N * N) :=
   flat_map (fun p => match mo_mat (fst p), gp_mat (snd (snd p)) with
